@@ -2,6 +2,7 @@ package main
 
 import (
 	"go/types"
+	"strings"
 
 	"golang.org/x/tools/go/ssa"
 )
@@ -165,6 +166,11 @@ func ruleRetainHelpers(c *Ctx) *RuleResult {
 					continue
 				}
 				if _, isSl := fn.Params[k].Type().Underlying().(*types.Slice); isSl {
+					// the slice itself (its backing array) is kept, not just something its elements point to:
+					// a lookup helper that returns one of the pointers stored in the slice adopts nothing
+					if i := strings.LastIndex(path, " -> "); i >= 0 && strings.Contains(path[i+4:], ".[*]") {
+						continue
+					}
 					kept[k] = path
 				}
 			}
